@@ -7,7 +7,8 @@
    operations; Apply) on any lines in any order, SaveAutofixChanges, the
    executable-bit check; [wf_groups] says that the logical lines are a partition
    of the physical lines of the file (any grouping into continuation lines). *)
-From PV Require Import Lib.Bytes Spec.ApplyLog Model.Autofix Proofs.ApplyLog Proofs.Autofix Proofs.AutofixViews.
+From PV Require Import Lib.Bytes Spec.ApplyLog Model.Autofix Proofs.ApplyLog Proofs.Autofix Proofs.AutofixViews Proofs.AutofixSort.
+From Coq Require Import Permutation.
 Open Scope Z_scope.
 
 (* what SaveAutofixChanges writes for the file is consistent with the AUTOFIX lines
@@ -57,6 +58,21 @@ Theorem C03_untouched_preserved :
       line_bytes l = l_raw l.
 Proof. exact untouched_preserved. Qed.
 Print Assumptions C03_untouched_preserved.
+
+(* the PLIST sorter: either nothing happens, or exactly one line gets a fix object
+   with the single action "Sorting the whole file." and what is saved is a
+   permutation of the file's lines, each line as a whole (with everything earlier
+   fixes put into it) *)
+Theorem C03_sort_permutes_whole_lines :
+  forall o keys store store' printed ops af,
+    length keys = length store -> Forall idle store ->
+    plist_sort o keys store = Ok (store', printed, ops, af) ->
+    (store' = store /\ printed = [] /\ ops = [] /\ af = false) \/
+    (exists view i l, Permutation view store' /\ (ops, af) = save o view /\
+       nth_error store' i = Some l /\ (forall k, k <> i -> nth_error store' k = nth_error store k) /\
+       (printed = [] \/ printed = [Log (l_file l) DSort (l_lineno l)])).
+Proof. exact sort_permutes_whole_lines. Qed.
+Print Assumptions C03_sort_permutes_whole_lines.
 
 (* several views of one file, serially: the second view is loaded from what the first
    one saved (its line numbers are those of the intermediate file); the final bytes
